@@ -22,6 +22,16 @@ CLAIMED = {
             "Trusted: the abstract machine (written from the statement), the benign argument subset, the parser on that subset. Stubbed: every command (by design).",
             "deterministic simulation: seeded programs + scripted command results (error/crash/exit injection) vs reference machine, online comparison, minimised replay",
             "DESIGN.md section 3 C03, Appendix D.1"),
+    "C04": ("exploration",
+            "Seeded history exploration with a reference model: generated well-nested if/elseif/else/while/for-in programs (every keyword in a random alias or full-name spelling, generic or specific end) run on the real SDK; branch and loop outcomes are scripted by the simulator, leaf commands are made to fail by the decorator, hash order and handle names come from the run seed; every emit (arguments and the whole variable map) and the final variables are compared with a tree-walking interpreter. Thin fault space, said plainly: no I/O and no schedule exist for this property.",
+            "Trusted: the interpreter (written from the statement), benign value pool. Stubbed: emit/cnd/hfail harness commands.",
+            "deterministic simulation: seeded programs, scripted branch/loop outcomes and injected command errors vs tree-walking reference interpreter, online comparison",
+            "DESIGN.md section 3 C04, Appendix D.2"),
+    "C05": ("exploration",
+            "Same machinery as C04 plus function definitions (scoped or not), calls as statements / with output variable / in condition position, returns from any loop depth, recursion bounded by scripted conditions and repeated calls after early returns (the abandoned in-flight loop state is the fault); the interpreter has call frames, the two documented corners are unconstrained.",
+            "Trusted: the interpreter with frames; call output variables are read only right after the call; runs in which a condition would read an unconstrained value are counted inconclusive, not passed.",
+            "deterministic simulation: seeded call/return histories (early return, recursion, re-call) and injected command errors vs reference interpreter with frames",
+            "DESIGN.md section 3 C05, Appendix D.2"),
     "C13": ("fault_enumeration",
             "Per sampled program the halt flag is raised at EVERY depth-0 instruction boundary of the (300-step-bounded) unhalted run and at every applicable position inside the in-flight instruction (before the command body, after it, during its on_error handler, from a nested invocation); each halted execution must be the exact prefix of the unhalted one: same events, no further top-level instruction started, Ok result, variables as after the in-flight instruction. Exhaustive in the halt position per program, sampled over programs. A quarter of the runs instead raise the flag from a second thread under shuttle's seeded random / PCT scheduler (exploration).",
             "Trusted: the decorator's depth bookkeeping (depth 0 = runner's own instruction, handler invocation classified by following an Error end), shuttle's serialisation of the two threads, handle names normalised by order of first appearance when executions are compared. Stubbed: harness commands, OS scheduler (mode B).",
